@@ -80,6 +80,16 @@ def eval_doc(args):
         # property's "same elements, text and in-scope namespaces" is read as equality of multisets; the order difference is reported only
         if sorted(stream(full)) != sorted(stream(lazy)): problems.append('iteration multiset (tag, text, nsmap) differs')
         elif stream(full) != stream(lazy): reported.append('iteration order differs')
+        # path-based processing of a lazy resource (the selection runs on the lazy XPath tree, chunk after chunk)
+        root_tag = 't:r' if which != 3 else 'r'; child = {1: 't:item', 2: '*', 3: 'q'}[which]; nsm = {'t': 'urn:t'}
+        for pth in ((f'/{root_tag}/{child}', child) if len(doc) < 50000 else (f'/{root_tag}/{child}',)):
+            p0 = [(e.reason, type(e).__name__) for e in s.iter_errors(doc, path=pth, namespaces=nsm)]
+            n0 = len(xmlschema.XMLResource(doc).findall(pth, nsm))
+            for thin in (True, False):
+                p1 = [(e.reason, type(e).__name__) for e in s.iter_errors(xmlschema.XMLResource(doc, lazy=1, thin_lazy=thin), path=pth, namespaces=nsm)]
+                if sorted(p0) != sorted(p1): problems.append(f'path {pth!r} (thin_lazy={thin}): errors differ, eager {len(p0)} lazy {len(p1)}')
+                n1 = sum(1 for _ in xmlschema.XMLResource(doc, lazy=1, thin_lazy=thin).iterfind(pth, nsm))
+                if n0 != n1: problems.append(f'path {pth!r} (thin_lazy={thin}): {n1} elements selected, {n0} in the loaded document')
         e2 = [(e.reason, type(e).__name__) for e in s.iter_errors(xmlschema.XMLResource(doc, lazy=2))]
         if e2 != e0: reported.append('depth-2 errors differ')
     except Exception as e:
